@@ -2,7 +2,8 @@ def fill(check, na):
     check("C01", "online uid-history oracle (prefix / duplicate-free sub-multiset) on real SCTP stacks under seeded fault schedules in virtual time",
           "Held on the executions produced: every message event of every run is checked against the send log (value, type, "
           "order, channel). Reach comes from thousands of distinct fault schedules per run (a third with TSN spaces starting shortly "
-          "before 2^32; relay cases whose sends suspend for virtual time); nothing is proved.",
+          "before 2^32; relay cases whose sends suspend for virtual time; one case in eight is a create/send/close program with "
+          "re-used ids - one mechanism there, shared with C13, is a listed known finding); nothing is proved.",
           "DTLS layer replaced by a non-suspending stand-in (plus a labelled yielding relay mode); virtual clock substituted for time.time in rtcsctptransport; pyee/crc32c trusted.",
           "DESIGN.md 3/C01")
     check("C02", "bounded-progress oracle at loop quiescence (delivered==sent, bufferedAmount==0, probe burst, livelock by counting) after seeded fault prefixes in virtual time",
